@@ -99,7 +99,10 @@ func (d *Encoder) emitFloat(f float64) error {
 	abs := math.Abs(f)
 	fmt := byte('f')
 	if abs != 0 {
-		if abs < 1e-6 || abs >= 1e21 {
+		// Integral values from 2^63 up cannot be read back from plain digits
+		// (the decoder types digit strings as 64-bit integers), so the
+		// exponent form starts there rather than at ES6's 1e21.
+		if abs < 1e-6 || abs >= 9223372036854775808 {
 			fmt = 'e'
 		}
 	}
